@@ -128,9 +128,21 @@ Definition gen_key (r : string * string * string * string * string * string * li
   match r with (_, fn, arm, x, vt, dst, _, _) => (fn, arm, x, vt, dst) end.
 Definition site_key (s : site) := (s_func s, s_arm s, ext_var (s_ext s), s_vtype s, s_dest s).
 
-(* every proto.SetExtension call of j5convert is a site of the model, with the same static types,
-   in the same order; an added / removed / retyped call breaks this lemma *)
-Lemma sites_agree : map site_key model_sites = map gen_key SetExtGen.sites.
+(* every proto.SetExtension call of j5convert is a site of the model with the same static types, and
+   every site of the model exists in the code: equality of the two tables as SETS of keys (function,
+   type-switch arm, extension, value type, destination type).  Reordering functions or moving a call
+   inside its arm does not matter; a call in a new place, a removed call or a retyped call does. *)
+Definition key5 := (string * string * string * string * string)%type.
+Definition key5_eqb (a b : key5) : bool :=
+  match a, b with
+  | (a1, a2, a3, a4, a5), (b1, b2, b3, b4, b5) =>
+      String.eqb a1 b1 && String.eqb a2 b2 && String.eqb a3 b3 && String.eqb a4 b4 && String.eqb a5 b5
+  end.
+Definition keys_subset (a b : list key5) : bool := forallb (fun k => existsb (key5_eqb k) b) a.
+Definition sites_same_set : bool :=
+  keys_subset (map site_key model_sites) (map gen_key SetExtGen.sites)
+  && keys_subset (map gen_key SetExtGen.sites) (map site_key model_sites).
+Lemma sites_agree : sites_same_set = true.
 Proof. vm_compute. reflexivity. Qed.
 
 (* every extension the model knows exists in the generated table *)
